@@ -234,6 +234,49 @@ def check_cache(ra, rb):
     return []
 
 
+HISTORY_EXPECTED = ["HasX", "SupportsClose", "Pops[int]", "Pops[str]", "Iterable[int]", "Sequence[str]", "Sized", "Container[int]",
+                    "SupportsAbs[int]", "Mapping[str, int]", "Hashable", "Callable[[int], int]", "TD", "list[int]"]
+HISTORY_EXTRA_OBJECTS = ["types.SimpleNamespace(x=1)", "types.SimpleNamespace(y=1)", "types.SimpleNamespace(x='s')", "[1, 2]", "['a']", "[]",
+                         "{'a': 1}", "{1: 'a'}", "{1}", "{'a'}", "bytearray(b'a')", "D(1)", "D(1, 'y')", "(lambda x: x)", "(lambda: 0)"]
+
+
+def check_history(tsrc, index, col=None):
+    """One expected type, every object of the universe (plus unhashable instances whose attributes differ) as a
+    literal: the verdicts of one Checker answering them in order, of another answering them in reverse order and
+    of a third answering them in an order of its own must coincide - a verdict depends on the pair, not on what was
+    asked before."""
+    import types as _types
+
+    ns = dict(NS, types=_types)
+    objs = [(o.src, o.obj) for o in UNIVERSE] + [(s, eval(s, ns)) for s in HISTORY_EXTRA_OBJECTS]
+    a_of = lambda: G.build(("rt", tsrc))
+    orders = [list(range(len(objs))), list(reversed(range(len(objs)))),
+              sorted(range(len(objs)), key=lambda i: runner.h64(("c04-history", index, i)))]
+    verdicts = []
+    for order in orders:
+        c = Checker()
+        a = a_of()
+        v = {}
+        for i in order:
+            try:
+                v[i] = accepts(a, V.KnownValue(objs[i][1]), c)
+            except Exception as e:
+                v[i] = f"raises {type(e).__name__}"
+        verdicts.append(v)
+    fails = []
+    for i, (src, _) in enumerate(objs):
+        vs = [v[i] for v in verdicts]
+        if col is not None:
+            col.case(nontrivial_id=("history", tsrc, src), label=["route:history-orders"])
+        if len(set(map(str, vs))) > 1:
+            fails.append((f"history|order|{tsrc.split('[')[0]}",
+                          f"{tsrc} <- Literal[{src}]: {vs[0]} when asked in universe order, {vs[1]} in reverse order, {vs[2]} in a shuffled "
+                          f"order (one Checker per order, each answering all {len(objs)} literals)",
+                          {"history": tsrc, "index": index}))
+            break
+    return fails
+
+
 # ----------------------------------------------------------------- generators
 
 LEAF_TOKENS = ["int", "bool", "str", "float", "bytes", "A", "B", "C", "object", "None", "E", "N", "complex"]
@@ -374,6 +417,7 @@ def shards(tier, seed):
     out = [{"mode": "pairs", "index": i, "examples": per} for i in range(n)]
     out += [{"mode": "td-pairs", "index": i, "of": 8} for i in range(8)]
     out.append({"mode": "user-generics"})
+    out += [{"mode": "history", "index": i, "of": 4} for i in range(4)]
     out += [{"mode": "program", "index": i, "modules": 5 if tier == "quick" else 150} for i in range(4 if tier == "quick" else 16)]
     return out
 
@@ -381,6 +425,12 @@ def shards(tier, seed):
 def run_shard(spec):
     col = runner.Collector(spec)
     seed = runner.mix_seed(spec["seed"], ID, spec["name"])
+    if spec["mode"] == "history":
+        for i, tsrc in enumerate(HISTORY_EXPECTED):
+            if i % spec["of"] == spec["index"]:
+                for key, what, case in check_history(tsrc, i, col):
+                    col.fail(key, what, case)
+        return col.result()
     if spec["mode"] == "pairs":
         def make():
             @given(pairs(any_ok=False))
@@ -465,6 +515,8 @@ def run_shard(spec):
 
 
 def replay_all(case):
+    if "history" in case:
+        return [{"key": k, "what": w[:500], "case": case} for k, w, _ in check_history(case["history"], case["index"])]
     if case.get("route") == "program":
         return program_check([(case["a"], case["b"])], sut.new_checker())
     if case.get("exclude_any"):
